@@ -248,13 +248,14 @@ def assignOnParent (parents : List Dev) (parentIdx sdIndex : Nat) : Outcome Err 
   match parents.find? (fun p => p.index == parentIdx) with
   | none => .panic "unwrap of `parents.iter_mut().find(..)` failed"
   | some parent =>
-    -- `NonZeroU16::new(subdevice.index).and_then(|index| parent.ports.assign_next_downstream_port(index))`
-    if sdIndex = 0 then .panic "no free ports on parent"
+    -- `NonZeroU16::new(subdevice.index).and_then(|index| parent.ports.assign_next_downstream_port(index))
+    --    .ok_or_else(|| Error::Topology)?`   (was `unwrap_opt!(.., "no free ports on parent")` before fix <COMMIT>)
+    if sdIndex = 0 then .err .topology
     else
       match parent.ports.assignNext sdIndex with
       | .panic w => .panic w
       | .err e => .err e
-      | .ok none => .panic "no free ports on parent"
+      | .ok none => .err .topology
       | .ok (some (ports', _)) =>
         .ok (replaceFirst (fun p => p.index == parentIdx) { parent with ports := ports' } parents)
 
@@ -340,9 +341,12 @@ def assignLoop (m : Mode) : List Dev → Nat → List Dev → Outcome Err (List 
           | .ok (sd', accum') => assignLoop m (parents' ++ [sd']) accum' rest
         else assignLoop m (parents' ++ [sd]) accum rest
 
-/-- `assign_parent_relationships(subdevices)` -/
+/-- `assign_parent_relationships(subdevices)`: a DL status without any open port is rejected up
+    front (`subdevices.iter().any(|sd| sd.ports.open_ports() == 0)` → `Err(Error::Topology)`, fix
+    <COMMIT>), so `Ports::topology()`'s `unreachable!` and `entry_port()`'s unwrap stay unreachable. -/
 def assignParentRelationships (m : Mode) (devs : List Dev) : Outcome Err (List Dev) :=
-  assignLoop m [] 0 devs
+  if devs.any (fun d => d.ports.openPorts == 0) then .err .topology
+  else assignLoop m [] 0 devs
 
 /-- What the MainDevice learns about one device: DL status (by port NUMBER), `dc_support().any()`,
     and — for DC devices only — the latched registers 0x0900.. (by port NUMBER) and 0x0918. -/
